@@ -222,7 +222,7 @@ def shards(tier):
 
 
 def run_shard(spec, ctx):
-    run_given(members(), body, ctx, ctx.pick(120, 5000))
+    run_given(members(), body, ctx, ctx.pick(120, 470))
 
 
 def replay(data, col):
